@@ -248,6 +248,12 @@ def check_case(case, ctx):
                 fail = {"what": "QUERY_FIRST_RESULT", "class": cls.__name__, "expected_any_of": len(want), "observed": repr(first)}
                 break
             history.append(["abandon", cls.__name__, op[2], len(want)])
+            # ... and the same query object (the same variable) evaluated right after it was left: every live instance again
+            again = list(q.evaluate())
+            if Counter(map(id, again)) != Counter(map(id, want)):
+                fail = {"what": "QUERY_AGAIN_AFTER_IT_WAS_ABANDONED", "class": cls.__name__, "how_left": op[2], "expected": len(want),
+                        "observed": len(again)}
+                break
         elif op[0] == "exc":
             # an exception raised by an evaluation inside a symbolic block: the block stays symbolic if the exception is
             # handled inside it, and the mode is off again if the exception leaves it
